@@ -436,7 +436,10 @@ class SelectedMailbox:
             self._selected_set.add(copy, replace=self)
         if self._prev is not None:
             with_uid: bool = getattr(command, 'uid', False)
-            untagged = self._compare(self._prev, frozen, with_uid)
+            # evaluated now: while the responses are being written (IDLE) the
+            # messages can change again, and a later fork starts from `frozen`
+            untagged: Iterable[UntaggedResponse] = list(
+                self._compare(self._prev, frozen, with_uid))
         else:
             untagged = []
         return copy, untagged
